@@ -396,6 +396,7 @@ func c04Worker(c *core.Ctx, job hashJob, res *core.ShardResult, wl *core.WLog) {
 		if len(l.List) > 500 {
 			nrep = 2
 		}
+		wl.Tick()
 		if !wl.Begin(st.ID, li, func() any { return l }) {
 			continue
 		}
